@@ -408,7 +408,7 @@ class Session:
             from . import record_resources as rr
             mp, ly = R.tables()
             sh = rr.Shadow(['m0'] + sorted(k for k in mp if k != 'm0'), mp, ly)
-            if node in sh.held or not sh.can_set(m, tuple(p), node, ()):
+            if node in sh.held or not sh.can_set(m, tuple(p), node, (), pool=False):
                 return False
             # the least free pool id must be a reserved one never used before
             return not any(k[0] == 'i' and k not in sh.held and sh.blank(k) and k not in (m, node) for k in sh.mp)
